@@ -237,6 +237,10 @@ func (x *Exec) typeInv(v Term, t types.Type) Term {
 	if t == nil {
 		return True
 	}
+	if _, isStruct := t.Underlying().(*types.Struct); isStruct && x.W.IsSeq(v.Sort) {
+		// strings.Builder / bytes.Buffer: modelled as their byte sequence
+		return And(Cmp(">=", x.W.SeqLen(v), IntLit(0)), Cmp(">=", x.W.SeqOff(v), IntLit(0)))
+	}
 	switch u := t.Underlying().(type) {
 	case *types.Basic:
 		if lo, hi, ok := intRange(u); ok {
@@ -1188,6 +1192,15 @@ func (x *Exec) assign(l ast.Expr, v Term, env *Env) {
 		x.assign(l.X, v, env)
 	case *ast.StarExpr:
 		x.assign(l.X, v, env)
+		if pt := info.TypeOf(l.X); pt != nil && !x.termMode {
+			if _, isPtr := pt.Underlying().(*types.Pointer); isPtr {
+				// *p = v succeeded, so p is not nil afterwards either (nil-ness is a predicate of the box value)
+				nv := x.eval(l.X, env)
+				pn := "isnilptr_" + sanitize(string(nv.Sort))
+				x.W.DeclareFun(pn, []Sort{nv.Sort}, SBool)
+				x.W.AddFact(env.pc, Not(T("("+pn+" "+nv.S+")", SBool)))
+			}
+		}
 	case *ast.SelectorExpr:
 		if sel, ok := info.Selections[l]; ok && sel.Kind() == types.FieldVal {
 			// s[i].f = v : folds over s that never look at field f are unaffected (for every prefix length)
@@ -1601,6 +1614,19 @@ func (x *Exec) scopeAt(env *Env, pos token.Pos) *Scope {
 			if cx.fc != nil && k < len(cx.fc.Counters) && cx.fc.Counters[k].Name == name {
 				v, ok := env.vars[cv]
 				return v, ok
+			}
+		}
+		if len(name) == 3 && strings.HasPrefix(name, "$i") && name[2] >= '2' && name[2] <= '9' && len(hidden) > 0 {
+			// $i2: the hidden index of the enclosing range loop (2nd innermost), $i3 the next one out, ...
+			want := int(name[2] - '0')
+			for k := len(hidden) - 1; k >= 0; k-- {
+				if hidden[k].Name() == "$i" {
+					want--
+					if want == 0 {
+						v, ok := env.vars[hidden[k]]
+						return v, ok
+					}
+				}
 			}
 		}
 		if (name == "$i" || name == "$visited") && len(hidden) > 0 {
@@ -2347,6 +2373,8 @@ func (x *Exec) countCall(fn *types.Func, key string, call *ast.CallExpr, env *En
 				sc.locals[p] = x.eval(call.Args[j], env)
 			}
 		}
+		// $ord: the ordinal of this call among the calls of the same callee in the function body (1-based, source order)
+		sc.locals["$ord"] = IntLit(int64(x.callOrdinal(call, fn)))
 		cond := sc.EvalBool(c.When.Expr)
 		x.quiet--
 		cur := env.vars[x.cx.counters[k]]
